@@ -244,7 +244,7 @@ RecordFails(r, cfgs, metas, gs, xs, usedK, pm, pre, post) ==
     \* leave no lock held
     [] r.ev \in {"pend", "drop"} ->
          IF post = pre /\ ("locksFree" \in DOMAIN r => r.locksFree) THEN {} ELSE {"C20"}
-    [] r.ev = "hang" -> {"C20"}
+    [] r.ev = "hang" -> {"C17", "C20"}     \* a call that does not return
     [] OTHER -> {}
 
 \* ghost / bookkeeping updates driven by the record
